@@ -124,3 +124,15 @@ package pointindex
 //@   witness w = ite(intExtent[0] <= intLine[0][0] && intLine[0][0] < intExtent[2] && intExtent[1] <= intLine[0][1] && intLine[0][1] < intExtent[3], 0, 1)
 //@   ensures[C02] result ==> meetsAt(intLine, intExtent, w)
 //@   ensures[C02] !result ==> forall(t Real, !meetsAt(intLine, intExtent, t))
+//@   ensures[C02] result ==> meets(intLine, intExtent) using post(1); meets_def2(intLine, intExtent, w)
+//@   ensures[C02] !result ==> !meets(intLine, intExtent) using meets_def1(intLine, intExtent)
+
+// meets(l, e) is "exists t. meetsAt(l, e, t)": these two axioms are its definition (skolemised with meetsT).
+//@ axiom meets_def1(l A2_A2_M, e A4_M)
+//@   mode real
+//@   prelude geom
+//@   ensures meets(l, e) ==> meetsAt(l, e, meetsT(l, e))
+//@ axiom meets_def2(l A2_A2_M, e A4_M, t Real)
+//@   mode real
+//@   prelude geom
+//@   ensures meetsAt(l, e, t) ==> meets(l, e)
